@@ -18,6 +18,7 @@ import Hts.Lemmas.IndexIORead
 import Hts.Lemmas.IndexIOTabixRead
 import Hts.Lemmas.IndexIOCsiRead
 import Hts.Lemmas.IndexCsiRepr
+import Hts.Lemmas.IndexTabixRepr
 import Hts.Props.C04
 namespace Hts.Props.C15
 open Hts.Model Hts.Model.Index Hts.Model.IndexIO
@@ -179,6 +180,28 @@ theorem tabix_chunks_norm_built (hdr : Tabix.Header) (recs : List Tabix.TRec) (n
     Tabix.chunks Coord.overlappingBinsFor Local.adjacent (normTabix (Hts.Props.C04.tbxBuilt hdr recs)) name beg stop =
       Tabix.chunks Coord.overlappingBinsFor Local.adjacent (Hts.Props.C04.tbxBuilt hdr recs) name beg stop :=
   tabix_chunks_norm _ _ name beg stop (Tabix.built_map_agrees Coord.binFor hdr recs name)
+
+/-- every tabix index built by `tabix.Index.Add` from a coordinate-sorted input is representable (`TWF`),
+under hypotheses on the INPUT only: header fields in their byte/int32 ranges, fewer than 2^31 − 1 records,
+chunk offsets below 2^63, NUL-free reference names whose total length (with terminators) is below 2^31.
+(A name containing NUL is accepted by `WriteTo` and splits into two names in `ReadFrom`: excluded here.) -/
+theorem tabix_built_wf (hdr : Tabix.Header) (hh : HeaderFieldsOK hdr) (recs : List Tabix.TRec)
+    (h : SortedInput (Hts.Props.C04.tbxTrace hdr recs)) (hlen : recs.length < 2147483647)
+    (hoff : ∀ r, r ∈ recs → r.chunk.e < 9223372036854775808)
+    (hnul : ∀ r, r ∈ recs → ∀ b, b ∈ r.name → b ≠ 0)
+    (hnames : (nameBlock (recs.map (·.name))).length < 2147483648) :
+    TWF (Hts.Props.C04.tbxBuilt hdr recs) :=
+  tabix_built_twf hdr hh recs h hlen hoff hnul hnames
+
+/-- tabix end to end, hypotheses on the input only -/
+theorem tabix_roundtrip_built (hdr : Tabix.Header) (hh : HeaderFieldsOK hdr) (recs : List Tabix.TRec)
+    (h : SortedInput (Hts.Props.C04.tbxTrace hdr recs)) (hlen : recs.length < 2147483647)
+    (hoff : ∀ r, r ∈ recs → r.chunk.e < 9223372036854775808)
+    (hnul : ∀ r, r ∈ recs → ∀ b, b ∈ r.name → b ≠ 0)
+    (hnames : (nameBlock (recs.map (·.name))).length < 2147483648) :
+    readTabix (writeTabix (Hts.Props.C04.tbxBuilt hdr recs)) = .ok (normTabix (Hts.Props.C04.tbxBuilt hdr recs)) ∧
+      writeTabix (normTabix (Hts.Props.C04.tbxBuilt hdr recs)) = writeTabix (Hts.Props.C04.tbxBuilt hdr recs) :=
+  ⟨readTabix_writeTabix _ (tabix_built_wf hdr hh recs h hlen hoff hnul hnames), writeTabix_norm _⟩
 
 /-- a tabix index without references and names (nothing or only unplaced lines added) round-trips -/
 theorem tabix_read_write_noRefs (n : Nat) (hn : n < 18446744073709551616) :
@@ -367,5 +390,22 @@ example : WF exIdx :=
     (by intro n hn; cases hn; decide)
 
 example : exIdx.refs ≠ [] := by decide
+
+/-- `CWF` is inhabited by a non-trivial index: the (4,2) CSI index of `C04.exCsi` (records on two
+references, a skipped id, a record over two finest bins, an unplaced record) -/
+example : CWF (Hts.Props.C04.csiBuilt 4 2 Hts.Props.C04.exCsi) :=
+  csi_built_wf 4 2 (by decide) (by decide) 2 (Or.inr rfl) [] (by simp) Hts.Props.C04.exCsi (by decide) (by decide)
+    (by decide) (by decide)
+
+/-- … and so is `TWF`: the tabix index of `C04.exTbx` (two named references, an unplaced line naming a third) -/
+example : TWF (Hts.Props.C04.tbxBuilt {} Hts.Props.C04.exTbx) :=
+  tabix_built_wf {} ⟨by decide, by decide, by decide, by decide, by decide, by decide⟩ Hts.Props.C04.exTbx
+    (by decide) (by decide) (by decide) (by decide) (by decide)
+
+/-- a version-1 CSI index with auxiliary bytes is representable as well -/
+example : CWF (Csi.addAll Coord.reg2bin { aux := [1, 2, 3], version := 1, minShift := 4, depth := 2 }
+    Hts.Props.C04.exCsi).1 :=
+  csi_built_wf 4 2 (by decide) (by decide) 1 (Or.inl rfl) [1, 2, 3] (by decide) Hts.Props.C04.exCsi (by decide)
+    (by decide) (by decide) (by decide)
 
 end Hts.Props.C15
